@@ -203,6 +203,7 @@ def work_c17(prop, tier, seed, widx, nworkers):
     nrec = 0
     reused = 0
     wrong_thread = 0
+    not_factory = 0
     main_pid = os.getpid()
     with open(tf.name) as fh:
         for line in fh:
@@ -215,6 +216,8 @@ def work_c17(prop, tier, seed, widx, nworkers):
             if rec['k'] == 'body_start':
                 if rec.get('inst_uses'):
                     reused += 1
+                if rec.get('factory') is False:
+                    not_factory += 1
                 mode = MODE_OF.get((rec.get('mod'), rec['node']))
                 if mode in ('thread', 'thread_tag', 'custom_tag') and (rec['pid'] != main_pid or rec['main_thread']):
                     wrong_thread += 1
@@ -225,6 +228,9 @@ def work_c17(prop, tier, seed, widx, nworkers):
     if reused:
         acc.findings.append({'kind': 'node_instance_reused', 'detail': {'invocations_on_reused_objects': reused},
                              'prop': ['C17', 'C08'], 'tags': [], 'case': None})
+    if not_factory:
+        acc.findings.append({'kind': 'node_object_not_from_default_factory', 'detail': {'invocations': not_factory},
+                             'prop': ['C17'], 'tags': [], 'case': None})
     if wrong_thread:
         acc.findings.append({'kind': 'wrong_dispatch', 'detail': {'bodies_in_wrong_thread_or_process': wrong_thread},
                              'prop': ['C17'], 'tags': [], 'case': None})
@@ -263,6 +269,9 @@ def registry_states():
             out.append({'thread': 'ok', 'process': 'ok', 'need': need, 'then_shutdown': shut})
     # other spellings of the same declarations: tags as plain strings; the execution mode set on a build_node()
     # derivative through attrs={'tags': ...} while the generic base class is an ordinary thread node
+    # no sync node at all, one coroutine node falls back to get_default(): no pool is needed, whatever the registries hold
+    for th in ('none', 'ok'):
+        out.append({'thread': th, 'process': 'none', 'need': 'async_only', 'variant': 'async_default'})
     for variant in ('str_tags', 'generic_attrs'):
         for th in ('none', 'ok'):
             for pr in ('none', 'ok'):
@@ -323,6 +332,9 @@ def state_main(stt):
     nodes = {'N0': dict(N('N0', 'async', []), plain_params=['x']), 'N1': N('N1', m1, ['N0']),
              'N2': N('N2', m2, ['N0']), 'N3': N('N3', 'async', ['N1', 'N2'])}
     prog = {'nodes': nodes, 'order': ['N0', 'N1', 'N2', 'N3'], 'input': 'N0', 'output': 'N3'}
+    if stt.get('variant') == 'async_default':
+        nodes['N1']['plan'] = {'fail': ['ALWAYS', 'E1']}
+        nodes['N1']['retry'] = {'use_default': True}
     if stt.get('variant') == 'str_tags':
         nodes['N1']['tag_style'] = nodes['N2']['tag_style'] = 'str'
     elif stt.get('variant') == 'generic_attrs':
